@@ -2,25 +2,8 @@
    the smearing methods of Lattice3D.py as regenerated into Gen/GenSmear.v on every run (tools/py2coq/gen_smear.py,
    runtime Model/SmearRt.v).  One theorem per translated method. *)
 From Coq Require Import List ZArith QArith Qabs Qround Bool String Lia Lqa Ring Field Ring_theory Field_theory FinFun.
-From SX Require Import Lib.KRing Lib.Py Lib.QCheck Gen.GenLattice Model.Lattice Model.Smear Model.SmearRt Gen.GenSmear.
+From SX Require Import Lib.KRing Lib.Py Lib.QCheck Gen.GenLattice Model.Lattice Model.Smear Model.SmearRt Gen.GenSmear Proofs.C16_Smear.
 Import ListNotations.
-
-(* ---- generic: the monad, folds, ranges --------------------------------------------------------------------- *)
-Lemma rbind_ok {A B} (a : A) (f : A -> result B) : rbind (Ok a) f = f a.
-Proof. reflexivity. Qed.
-
-Lemma foldM_app {S A} (f : S -> A -> result S) l1 l2 s :
-  foldM f (l1 ++ l2) s = rbind (foldM f l1 s) (foldM f l2).
-Proof.
-  revert s. induction l1 as [|a t IH]; intros s; [reflexivity|]. simpl. destruct (f s a); [apply IH | reflexivity].
-Qed.
-
-Lemma foldM_ext {S A} (f g : S -> A -> result S) l s :
-  (forall s a, In a l -> f s a = g s a) -> foldM f l s = foldM g l s.
-Proof.
-  revert s. induction l as [|a t IH]; intros s H; [reflexivity|]. simpl. rewrite (H s a) by now left.
-  destruct (g s a); [|reflexivity]. apply IH. intros s' b Hb. apply H. now right.
-Qed.
 
 (* a loop whose steps all succeed is a fold_left *)
 Lemma foldM_pure {S A} (I : S -> Prop) (f : S -> A -> result S) (g : S -> A -> S) l :
@@ -30,28 +13,6 @@ Proof.
   induction l as [|a t IH]; intros H s Hs; [now split|]. simpl.
   destruct (H s a Hs (or_introl eq_refl)) as [E Hs']. rewrite E. apply IH; [|exact Hs'].
   intros s' b Hs'' Hb. apply H; [exact Hs''|now right].
-Qed.
-
-(* nested loops whose inner range does not change are one loop over the product *)
-Lemma foldM_nest {S A B} (I : S -> Prop) (f : S -> A -> result S) (g : S -> A -> B -> result S) (ys : S -> list B) ys0 :
-  (forall s a, f s a = foldM (fun s b => g s a b) (ys s) s) ->
-  (forall s, I s -> ys s = ys0) ->
-  (forall s a b s', I s -> g s a b = Ok s' -> I s') ->
-  forall xs s, I s ->
-    foldM f xs s = foldM (fun s ab => g s (fst ab) (snd ab)) (flat_map (fun a => map (fun b => (a, b)) ys0) xs) s.
-Proof.
-  intros Hf Hy Hg.
-  assert (Inner : forall a l s, I s ->
-            foldM (fun s b => g s a b) l s = foldM (fun s ab => g s (fst ab) (snd ab)) (map (fun b => (a, b)) l) s
-            /\ forall s', foldM (fun s b => g s a b) l s = Ok s' -> I s').
-  { intros a l. induction l as [|b t IH]; intros s Hs.
-    - split; [reflexivity|]. simpl. intros s' E. inversion E. subst. exact Hs.
-    - simpl. destruct (g s a b) as [s1|e] eqn:E1.
-      + apply IH. eapply Hg; eauto.
-      + split; [reflexivity|]. intros s' E. discriminate. }
-  induction xs as [|a t IH]; intros s Hs; [reflexivity|]. simpl.
-  rewrite foldM_app, Hf, (Hy s Hs). destruct (Inner a ys0 s Hs) as [E1 E2]. rewrite <- E1.
-  destruct (foldM (fun s b => g s a b) ys0 s) as [s1|e] eqn:E; [|reflexivity]. simpl. apply IH. apply E2. reflexivity.
 Qed.
 
 Lemma py_range_zrange n : py_range n = zrange n.
@@ -616,9 +577,6 @@ Section Source.
     unfold np_ndindex. rewrite fold_left_flat_map. apply fold_left_ext. intros s1 i.
     rewrite fold_left_flat_map. apply fold_left_ext. intros s2 j. apply fold_left_mapped.
   Qed.
-  Lemma fold_left_pair {A} (f1 : option K -> A -> option K) (f2 : ndarr K -> A -> ndarr K) l n g :
-    fold_left (fun st a => (f1 (fst st) a, f2 (snd st) a)) l (n, g) = (fold_left f1 l n, fold_left f2 l g).
-  Proof. revert n g. induction l as [|a t IH]; intros n g; [reflexivity|]. cbn [fold_left fst snd]. apply IH. Qed.
   Lemma fold_left_id {A S} (l : list A) (s : S) : fold_left (fun s _ => s) l s = s.
   Proof. induction l; [reflexivity|assumption]. Qed.
 
@@ -673,7 +631,7 @@ Section Source.
     Qed.
 
     Lemma loop4_step : forall i j k n t, okT t -> inside sT (i, j, k) = true ->
-      loop4 s kernel p x y z (Some v) kv i j (n, t) k = Ok (step1 (n, t) (i, j, k)) /\ okT (snd (step1 (n, t) (i, j, k))).
+      loop4 i j kernel kv x y z p (Some v) s (n, t) k = Ok (step1 (n, t) (i, j, k)) /\ okT (snd (step1 (n, t) (i, j, k))).
     Proof.
       intros i j k n t Ht Hin. destruct (okT_dims t Ht) as [Hd [Hsh [Hx [Hy Hz]]]]. destruct (okT_lengths t Ht) as [Lx [Ly Lz]].
       split.
@@ -687,7 +645,7 @@ Section Source.
 
     (* the first three loops: one pass over all nodes of the temporary lattice *)
     Lemma first_nest : forall n t, okT t ->
-      foldM (loop2 s kernel p x y z (Some v) kv) (py_range (num_points_x_ t)) (n, t)
+      foldM (loop2 kernel kv x y z p (Some v) s) (py_range (num_points_x_ t)) (n, t)
       = Ok (fold_left step1 (np_ndindex sT) (n, t)) /\ okT (snd (fold_left step1 (np_ndindex sT) (n, t))).
     Proof.
       intros n t Ht. unfold sT, m, tshape.
@@ -812,23 +770,676 @@ Section Source.
       rewrite V. destruct (knorm K k0 kadd d) as [N|]; cbn [ocmp olift2]; [destruct (kgtb N k0)|]; reflexivity.
     Qed.
 
-    (* add_same_spaced_grid onto the lattice against the model's placement, node by node *)
-    Variable c : Z * Z * Z.
-    Hypothesis Hdc : dc d = c.
-    Definition tgt_of (n : Z * Z * Z) (ijk : Z * Z * Z) : option (Z * Z * Z) :=
-      let q := add3 c (sub3 ijk m) in if inside n q then Some q else None.
-    Lemma place_sim n : forall l, (forall ijk, In ijk l -> inside sT ijk = true) ->
-      forall g gm, (forall q, inside n q = true -> cell g q = Some (gm q)) ->
-      forall q, inside n q = true ->
-        cell (fold_left (place_step G2 (tgt_of n)) l g) q
-        = Some (fold_left (place_with K k0 kadd kmul kdiv norm_ok (knorm K k0 kadd d) n vol d) (map (fun ijk => sub3 ijk m) l) gm q).
-    Proof.
-      induction l as [|ijk t IH]; intros Hl g gm Hg q Hq; [exact (Hg q Hq)|]. cbn [fold_left map].
-      apply IH; [intros a Ha; apply Hl; now right| |exact Hq].
-      intros q' Hq'. unfold place_step, place_with, tgt_of. rewrite Hdc.
-      destruct (inside n (add3 c (sub3 ijk m))) eqn:E; [|exact (Hg q' Hq')].
-      cbn [arr_upd cell]. unfold zupd. rewrite idx_eqb_eq3. destruct (eq3 q' (add3 c (sub3 ijk m))); [|exact (Hg q' Hq')].
-      rewrite (Hg _ E), (temp_cell ijk (Hl ijk (or_introl eq_refl))). reflexivity.
-    Qed.
   End OneParticle.
+
+  (* where add_same_spaced_grid puts node (i,j,k) of the temporary lattice according to the model: on c + (i,j,k) - m,
+     nowhere when that is not a node *)
+  Definition tgt_of (mx my mz : Z) (c n : Z * Z * Z) (ijk : Z * Z * Z) : option (Z * Z * Z) :=
+    let q := add3 c (sub3 ijk (mx, my, mz)) in if inside n q then Some q else None.
+
+  (* ---- the temporary lattice passes the spacing test of add_same_spaced_grid (exact arithmetic) ------------------- *)
+  Lemma py_range_ge2 n : (2 <= n)%Z -> exists t, py_range n = 0%Z :: 1%Z :: t.
+  Proof.
+    intros H. unfold py_range. destruct (Z.to_nat n) as [|[|k]] eqn:E; try lia. eexists. reflexivity.
+  Qed.
+  Lemma q_ltb_small e : e == 0 -> q_ltb (Qabs e) same_c = true.
+  Proof.
+    intros H. unfold q_ltb. apply negb_true_iff. apply not_true_is_false. intros L. apply Qle_bool_iff in L.
+    rewrite (Qabs_wd e 0 H) in L. revert L. unfold same_c, Qle. cbn. lia.
+  Qed.
+  Lemma close_temp dx mm : (0 <= mm)%Z ->
+    spacing_close dx (spacing {| amin := - (inject_Z mm * dx); amax := inject_Z mm * dx; avals := tvals dx mm |}) = true.
+  Proof.
+    intros Hm. unfold spacing, tvals, lin. cbn [avals].
+    destruct (Z.eq_dec mm 0) as [->|Hn]; [reflexivity|].
+    assert (E1 : (2 * mm + 1 =? 1)%Z = false) by (apply Z.eqb_neq; lia). rewrite E1.
+    destruct (py_range_ge2 (2 * mm + 1) ltac:(lia)) as [t ->]. cbn [map].
+    assert (E2 : (0 =? 2 * mm + 1 - 1)%Z = false) by (apply Z.eqb_neq; lia).
+    assert (E3 : (1 =? 2 * mm + 1 - 1)%Z = false) by (apply Z.eqb_neq; lia). rewrite E2, E3.
+    unfold spacing_close. apply q_ltb_small.
+    replace (2 * mm + 1 - 1)%Z with (2 * mm)%Z by lia. rewrite inject_Z_mult.
+    assert (Hq : ~ inject_Z mm == 0) by (intros H; apply Hn; apply (eq_IZR_Q mm 0) || (unfold Qeq, inject_Z in H; cbn in H; lia)).
+    field. exact Hq.
+  Qed.
+
+  (* ---- the closest node is a node ------------------------------------------------------------------------------------ *)
+  Lemma argmin_from_bound : forall ds b bd i, argmin_from b bd i ds = b \/ (i <= argmin_from b bd i ds < i + List.length ds)%nat.
+  Proof.
+    induction ds as [|dd t IH]; intros b bd i; [now left|]. cbn [argmin_from List.length].
+    destruct (Qlt_bool dd bd).
+    - destruct (IH i dd (S i)) as [->|H]; right; lia.
+    - destruct (IH b bd (S i)) as [->|H]; [now left|right; lia].
+  Qed.
+  Lemma closest1_bound v (a : axis) cc : closest1 v a = Ok cc -> (0 <= cc < Z.of_nat (npts a))%Z.
+  Proof.
+    unfold closest1, find_closest_index, npts. destruct (avals a) as [|v0 t].
+    - destruct v; cbn; discriminate.
+    - destruct v as [q| | |]; try (cbn; intros E; inversion E; subst; cbn [List.length]; lia).
+      unfold argmin, dists. cbn [map rmap]. intros E. apply (f_equal (fun r => match r with Ok c' => c' | Err _ => 0%Z end)) in E. cbv beta iota in E. subst cc. cbn [List.length].
+      destruct (argmin_from_bound (map (fun v : Q => Qabs (v - q)) t) 0 (Qabs (v0 - q)) 1) as [->|H]; [lia|].
+      rewrite map_length in H. lia.
+  Qed.
+  Lemma coord1_ok cc (a : axis) : (0 <= cc < Z.of_nat (npts a))%Z -> coord1 cc a = Ok (tcoord (avals a) cc).
+  Proof.
+    intros H. unfold coord1, gen_coord_bad, tcoord.
+    assert (E1 : (cc <? 0)%Z = false) by (apply Z.ltb_ge; lia).
+    assert (E2 : (Z.of_nat (npts a) <=? cc)%Z = false) by (apply Z.leb_gt; lia). rewrite E1, E2. cbn [orb].
+    destruct (nth_error (avals a) (Z.to_nat cc)) eqn:E; [rewrite (nth_error_nth _ _ _ E); reflexivity|].
+    apply nth_error_None in E. unfold npts in H. lia.
+  Qed.
+
+  (* ---- one particle --------------------------------------------------------------------------------------------------- *)
+  Definition nsig3 (s : lat) : Q * Q * Q := (n_sigma_x_ s, n_sigma_y_ s, n_sigma_z_ s).
+  Definition prep_of (s : lat) (sigma : Q) (quantity kernel : string) (p : P) : result (dep K) :=
+    prep K k1 (axis_x s) (axis_y s) (axis_z s) (nsig3 s) sigma quantity (kern_of kernel) (obs s sigma kernel p).
+  (* DOMAIN.  (1) no axis has spacing 0 (the code divides by it and round() raises);  (2) building the frozen normal
+     distribution does not raise (scipy raises LinAlgError for sigma = 0);  (3) when a spacing is None the code raises
+     TypeError before any half width is computed, the model checks axis by axis: they agree unless an EARLIER axis has a
+     negative half width *)
+  Definition spacing_nonzero (s : lat) : Prop :=
+    forall dx, spacing_x_ s = Some dx \/ spacing_y_ s = Some dx \/ spacing_z_ s = Some dx -> ~ dx == 0.
+  Definition mvn_ok (sigma : Q) : Prop := forall mean dim, exists kv, o_mvn mean (mat_scale (Qpower sigma 2) (np_eye dim)) = Ok kv.
+  Definition hw_order_ok (s : lat) (sigma : Q) : Prop :=
+    match spacing_x_ s, spacing_y_ s, spacing_z_ s with
+    | Some dx, None, _ => (0 <= hw (n_sigma_x_ s) sigma dx)%Z
+    | Some dx, Some dy, None => (0 <= hw (n_sigma_x_ s) sigma dx)%Z /\ (0 <= hw (n_sigma_y_ s) sigma dy)%Z
+    | _, _, _ => True
+    end.
+  (* THE FLOAT PATH, per particle: the temporary lattice (half widths dm d) centred on the coordinates of the closest
+     node dc d is placed onto the nodes dc d + offset, offsets that leave the lattice are skipped *)
+  Definition apd_lands (s : lat) (d : dep K) : Prop :=
+    forall dx dy dz xc yc zc, spacing_x_ s = Some dx -> spacing_y_ s = Some dy -> spacing_z_ s = Some dz ->
+      (let '(cx, cy, cz) := dc d in g_coords s cx cy cz) = Ok (xc, yc, zc) ->
+      lands s (temp_obj dx dy dz (dm d)) dx dy dz xc yc zc
+            (let '(mx, my, mz) := dm d in tgt_of mx my mz (dc d) (dims s)).
+
+  Lemma lands_other_grid (s o : lat) g dx dy dz cx cy cz tgt : shape g = shape (grid_ o) ->
+    lands s o dx dy dz cx cy cz tgt -> lands s (set_grid_ o g) dx dy dz cx cy cz tgt.
+  Proof. intros Hg H i j k Hin. rewrite grid_set_grid, Hg in Hin. exact (H i j k Hin). Qed.
+
+  (* what one pass of the particle loop does, against the model's [prep] + [deposit_one] *)
+  Definition step_post (s : lat) (r : result lat) (d : dep K) : Prop :=
+    forall vol, cell_volume_ s = Some vol -> apd_lands s d ->
+      exists G, r = Ok (set_grid_ s (fold_left (place_step G (let '(mx, my, mz) := dm d in tgt_of mx my mz (dc d) (dims s)))
+                                               (np_ndindex (tshape (dm d))) (grid_ s)))
+        /\ forall ijk, inside (tshape (dm d)) ijk = true ->
+             cell G ijk = Some (tempn_with K k0 kmul kdiv norm_ok (knorm K k0 kadd d) vol d (sub3 ijk (dm d))).
+  Definition step_rel (s : lat) (m : result (dep K)) (r : result lat) : Prop :=
+    match m with Ok d => step_post s r d | Err e => r = Err e end.
+
+  Lemma loop1_step : forall (s : lat) sigma quantity kernel p,
+    wf s -> spacing_nonzero s -> mvn_ok sigma -> hw_order_ok s sigma ->
+    step_rel s (prep_of s sigma quantity kernel p) (loop1 quantity kernel sigma s p).
+  Proof.
+    intros s sigma quantity kernel p W Hnz Hmvn Hord.
+    unfold prep_of, prep, nsig3. cbn [ppos obs]. unfold gen_add_particle_data_loop1. cbv zeta. cbv beta iota.
+    change is_nan with fv_isnan.
+    destruct (fv_isnan (pfv "x" p) || fv_isnan (pfv "y" p) || fv_isnan (pfv "z" p)) eqn:En; [reflexivity|].
+    (* quantity *)
+    unfold quantity_of, gen_quantity_table, gen_quantity_unknown. cbn [lookup pattr].
+    repeat match goal with |- context [String.eqb ?l quantity] => rewrite (String.eqb_sym l quantity) end.
+    match goal with |- context [rbind ?q (fun v_value : option K => @?body v_value)] => set (sf := body); set (qs := q) end.
+    match goal with |- context [rbind ?q (fun v : K => @?body v)] => set (mf := body); set (qm := q) end.
+    assert (Rest : forall v, step_rel s (mf v) (sf (Some v))).
+    { intros v. subst mf sf qs qm. cbv beta. cbn [fk_isnan is_none].
+      unfold kern_of.
+      match goal with |- context [rbind ?q (fun v_kernel_value : KERN => @?body v_kernel_value)] => set (sf2 := body) end.
+      match goal with |- context [rbind (half_width (n_sigma_x_ s) ?b ?c) ?f] => set (mf2 := rbind (half_width (n_sigma_x_ s) b c) f) end.
+      assert (Rest2 : forall kv, kern_create sigma kernel p = Ok kv -> step_rel s mf2 (sf2 kv)).
+      { intros kv Hkv. subst mf2 sf2. cbv beta. unfold half_width.
+        rewrite <- (wf_sx s W), <- (wf_sy s W), <- (wf_sz s W).
+        change round_half_even with py_round.
+        destruct (spacing_x_ s) as [dx|] eqn:Ex; [|reflexivity].
+        destruct (spacing_y_ s) as [dy|] eqn:Ey.
+        2:{ cbn [is_none]. unfold hw_order_ok in Hord. rewrite Ex, Ey in Hord. unfold hw in Hord.
+            assert (E : (py_round (n_sigma_x_ s * sigma / dx) <? 0)%Z = false) by (apply Z.ltb_ge; exact Hord). rewrite E. reflexivity. }
+        destruct (spacing_z_ s) as [dz|] eqn:Ez.
+        2:{ cbn [is_none]. unfold hw_order_ok in Hord. rewrite Ex, Ey, Ez in Hord. unfold hw in Hord. destruct Hord as [H1 H2].
+            assert (E1 : (py_round (n_sigma_x_ s * sigma / dx) <? 0)%Z = false) by (apply Z.ltb_ge; exact H1).
+            assert (E2 : (py_round (n_sigma_y_ s * sigma / dy) <? 0)%Z = false) by (apply Z.ltb_ge; exact H2). rewrite E1, E2. reflexivity. }
+        cbn [is_none opt_get rbind]. unfold q_div.
+        assert (Zx : Qeq_bool dx 0 = false) by (apply not_true_is_false; intros H; apply Qeq_bool_iff in H; exact (Hnz dx (or_introl Ex) H)).
+        assert (Zy : Qeq_bool dy 0 = false) by (apply not_true_is_false; intros H; apply Qeq_bool_iff in H; exact (Hnz dy (or_intror (or_introl Ey)) H)).
+        assert (Zz : Qeq_bool dz 0 = false) by (apply not_true_is_false; intros H; apply Qeq_bool_iff in H; exact (Hnz dz (or_intror (or_intror Ez)) H)).
+        rewrite Zx, Zy, Zz. cbn [rbind].
+        set (mx := py_round (n_sigma_x_ s * sigma / dx)). set (my := py_round (n_sigma_y_ s * sigma / dy)).
+        set (mz := py_round (n_sigma_z_ s * sigma / dz)).
+        rewrite source___init__.
+        assert (P0 : ((2 * mx + 1) * (2 * my + 1) * (2 * mz + 1) =? 0)%Z = false).
+        { apply Z.eqb_neq. apply Z.neq_mul_0. split; [apply Z.neq_mul_0; split|]; lia. }
+        rewrite P0.
+        destruct (mx <? 0)%Z eqn:Mx.
+        { assert (E : (2 * mx + 1 <? 0)%Z = true) by (apply Z.ltb_lt; apply Z.ltb_lt in Mx; lia). rewrite E. reflexivity. }
+        assert (Ex' : (2 * mx + 1 <? 0)%Z = false) by (apply Z.ltb_ge; apply Z.ltb_ge in Mx; lia). rewrite Ex'. cbn [rbind orb].
+        destruct (my <? 0)%Z eqn:My.
+        { assert (E : (2 * my + 1 <? 0)%Z = true) by (apply Z.ltb_lt; apply Z.ltb_lt in My; lia). rewrite E. reflexivity. }
+        assert (Ey' : (2 * my + 1 <? 0)%Z = false) by (apply Z.ltb_ge; apply Z.ltb_ge in My; lia). rewrite Ey'. cbn [rbind orb].
+        destruct (mz <? 0)%Z eqn:Mz.
+        { assert (E : (2 * mz + 1 <? 0)%Z = true) by (apply Z.ltb_lt; apply Z.ltb_lt in Mz; lia). rewrite E. reflexivity. }
+        assert (Ez' : (2 * mz + 1 <? 0)%Z = false) by (apply Z.ltb_ge; apply Z.ltb_ge in Mz; lia). rewrite Ez'. cbn [rbind orb].
+        apply Z.ltb_ge in Mx, My, Mz.
+        change (init_obj (- (inject_Z mx * dx)) (inject_Z mx * dx) (- (inject_Z my * dy)) (inject_Z my * dy) (- (inject_Z mz * dz))
+                  (inject_Z mz * dz) (2 * mx + 1) (2 * my + 1) (2 * mz + 1) gen_default___init___n_sigma_x
+                  gen_default___init___n_sigma_y gen_default___init___n_sigma_z) with (temp_obj dx dy dz (mx, my, mz)).
+        (* the closest node exists: the axes have at least two nodes *)
+        assert (CT : forall vv (a : axis) dd, spacing a = Some dd -> exists cc, closest1 vv a = Ok cc).
+        { intros vv a dd Hs. unfold spacing in Hs. unfold closest1, find_closest_index.
+          destruct (avals a) as [|v0 [|v1 t]]; try discriminate. destruct vv; cbn; eexists; reflexivity. }
+        destruct (CT (pfv "x" p) (axis_x s) dx) as [cx Cx]; [rewrite <- (wf_sx s W); exact Ex|].
+        destruct (CT (pfv "y" p) (axis_y s) dy) as [cy Cy]; [rewrite <- (wf_sy s W); exact Ey|].
+        destruct (CT (pfv "z" p) (axis_z s) dz) as [cz Cz]; [rewrite <- (wf_sz s W); exact Ez|].
+        rewrite Cx, Cy, Cz. cbn [rbind step_rel]. intros vol Hvol Hl. cbn [dm dc].
+        set (T0 := temp_obj dx dy dz (mx, my, mz)).
+        assert (OK0 : okT dx dy dz mx my mz T0) by (exists (grid_ T0); split; [symmetry; apply set_grid_same|reflexivity]).
+        rewrite (proj1 (first_nest s kernel p kv v vol dx dy dz mx my mz Hvol (conj Mx (conj My Mz)) (Some k0) T0 OK0)).
+        subst T0. rewrite first_result. cbn [rbind]. cbv beta iota.
+        set (T0 := temp_obj dx dy dz (mx, my, mz)).
+        exists (G2 kernel p kv v vol dx dy dz mx my mz). split.
+        - assert (OK1 : okT dx dy dz mx my mz (set_grid_ T0 (G1 kernel p kv v vol dx dy dz mx my mz))).
+          { eexists. split; [reflexivity|apply G1_shape]. }
+          rewrite (proj1 (second_nest dx dy dz mx my mz (N1 kernel p kv dx dy dz mx my mz) _ OK1)).
+          subst T0. rewrite second_result. fold (G2 kernel p kv v vol dx dy dz mx my mz). cbn [rbind].
+          rewrite source_find_closest_indices, Cx, Cy, Cz. cbn [rbind]. cbv beta iota.
+          assert (Co : g_coords s cx cy cz = Ok (tcoord (x_values_ s) cx, tcoord (y_values_ s) cy, tcoord (z_values_ s) cz)).
+          { rewrite (source_get_coordinates s cx cy cz W).
+            rewrite (coord1_ok cx (axis_x s) (closest1_bound _ _ _ Cx)), (coord1_ok cy (axis_y s) (closest1_bound _ _ _ Cy)),
+              (coord1_ok cz (axis_z s) (closest1_bound _ _ _ Cz)). reflexivity. }
+          rewrite Co. cbn [rbind]. cbv beta iota.
+          unfold apd_lands in Hl. cbn [dc dm] in Hl. specialize (Hl dx dy dz _ _ _ Ex Ey Ez Co).
+          rewrite (source_add_same_spaced_grid s _ _ _ _ dx dy dz (tgt_of mx my mz (cx, cy, cz) (dims s)) (wf_shape s W) Ex Ey Ez).
+          + rewrite grid_set_grid, G2_shape. reflexivity.
+          + unfold temp_obj, init_obj. cbn [spacing_x_ spacing_y_ spacing_z_ set_grid_].
+            pose proof (close_temp dx mx Mx) as C1. pose proof (close_temp dy my My) as C2. pose proof (close_temp dz mz Mz) as C3.
+            unfold tvals in C1, C2, C3. rewrite C1, C2, C3. reflexivity.
+          + apply lands_other_grid; [apply G2_shape|exact Hl].
+        - apply (temp_cell kernel p kv v vol dx dy dz mx my mz); try reflexivity.
+          intros [[i j] k] Hin. cbn [dk dm sub3 obs pkern]. unfold obs_kern, hws. rewrite Ex, Ey, Ez, Hkv. cbn [sp_of]. unfold hw.
+          fold mx my mz. unfold sf_at.
+          replace (i - mx + mx)%Z with i by lia. replace (j - my + my)%Z with j by lia. replace (k - mz + mz)%Z with k by lia.
+          reflexivity. }
+      unfold kern_create in Rest2.
+      destruct (String.eqb kernel "gaussian") eqn:Eg.
+      - destruct (Hmvn [pfv "x" p; pfv "y" p; pfv "z" p] 3%Z) as [kv Ekv]. rewrite Ekv. cbn [rbind]. exact (Rest2 kv Ekv).
+      - destruct (String.eqb kernel "covariant") eqn:Ec; [|reflexivity].
+        cbn [pmom_nan obs]. destruct (fv_isnan (pfv "px" p) || fv_isnan (pfv "py" p) || fv_isnan (pfv "py" p)); [reflexivity|].
+        destruct (Hmvn [Fin (0 # 1); Fin (0 # 1)] 2%Z) as [kv Ekv]. rewrite Ekv. cbn [rbind]. exact (Rest2 kv Ekv). }
+    assert (RestN : sf None = Err ValueError) by reflexivity.
+    subst qs qm.
+    repeat match goal with |- context [String.eqb quantity ?l] => destruct (String.eqb quantity l) end;
+      cbn [pattr obs];
+      try match goal with |- context [pfk ?a p] => destruct (pfk a p) as [v|] end;
+      cbn [rbind step_rel]; try exact (Rest _); try exact RestN.
+  Qed.
+
+  (* ---- the float path, axis by axis, in terms of the hand-model functions of Model/Lattice.v --------------------------- *)
+  (* one axis: node i of the temporary lattice (half width m), moved by the coordinate of node c, fails the range test
+     exactly when c + i - m is not a node, and otherwise (after clamping) has c + i - m as nearest node *)
+  Definition lands1 (a : axis) (dx : Q) (c m : Z) : Prop :=
+    forall i, (0 <= i < 2 * m + 1)%Z ->
+      let pos := (tcoord (tvals dx m) i + tcoord (avals a) c)%Q in
+      if out1 pos (amin a) (amax a) (tol_c * Qabs dx)
+      then in1 (c + (i - m)) (Z.of_nat (npts a)) = false
+      else in1 (c + (i - m)) (Z.of_nat (npts a)) = true
+           /\ get_index_nn (Fin (clamp pos (amin a) (amax a))) (avals a) = Ok (Z.to_nat (c + (i - m))).
+
+  Lemma lands_axes (s : lat) dx dy dz cx cy cz mx my mz : wf s -> (0 <= mx)%Z -> (0 <= my)%Z -> (0 <= mz)%Z ->
+    lands1 (axis_x s) dx cx mx -> lands1 (axis_y s) dy cy my -> lands1 (axis_z s) dz cz mz ->
+    lands s (temp_obj dx dy dz (mx, my, mz)) dx dy dz (tcoord (x_values_ s) cx) (tcoord (y_values_ s) cy) (tcoord (z_values_ s) cz)
+          (tgt_of mx my mz (cx, cy, cz) (dims s)).
+  Proof.
+    intros W Mx My Mz Lx Ly Lz i j k Hin.
+    assert (OK0 : okT dx dy dz mx my mz (temp_obj dx dy dz (mx, my, mz))).
+    { eexists. split; [symmetry; apply set_grid_same|reflexivity]. }
+    destruct (okT_lengths dx dy dz mx my mz (conj Mx (conj My Mz)) _ OK0) as [L1 [L2 L3]].
+    change (shape (grid_ (temp_obj dx dy dz (mx, my, mz)))) with (tshape (mx, my, mz)) in Hin.
+    eexists _, _, _. split; [apply coords_at; try assumption; exact Hin|]. cbv zeta.
+    change (x_values_ (temp_obj dx dy dz (mx, my, mz))) with (tvals dx mx).
+    change (y_values_ (temp_obj dx dy dz (mx, my, mz))) with (tvals dy my).
+    change (z_values_ (temp_obj dx dy dz (mx, my, mz))) with (tvals dz mz).
+    unfold inside, tshape, in1 in Hin. rewrite !andb_true_iff, !Z.leb_le, !Z.ltb_lt in Hin.
+    specialize (Lx i ltac:(lia)). specialize (Ly j ltac:(lia)). specialize (Lz k ltac:(lia)). cbv zeta in Lx, Ly, Lz.
+    cbn [amin amax avals axis_x axis_y axis_z] in Lx, Ly, Lz.
+    unfold tgt_of, dims. cbn [add3 sub3 inside]. rewrite (wf_nx s W), (wf_ny s W), (wf_nz s W).
+    destruct (out1 _ (x_min_ s) _ _); [rewrite Lx; reflexivity|]. destruct Lx as [Ix Nx]. rewrite Ix.
+    destruct (out1 _ (y_min_ s) _ _); [rewrite Ly; reflexivity|]. destruct Ly as [Iy Ny]. rewrite Iy.
+    destruct (out1 _ (z_min_ s) _ _); [rewrite Lz; reflexivity|]. destruct Lz as [Iz Nz]. rewrite Iz.
+    cbn [orb andb]. eexists. split; [reflexivity|]. split; [cbn [inside]; rewrite Ix, Iy, Iz; reflexivity|].
+    rewrite source___get_indices_nearest_neighbor. cbn [avals axis_x axis_y axis_z] in Nx, Ny, Nz. rewrite Nx, Ny, Nz. cbn [rmap rbind].
+    unfold in1 in Ix, Iy, Iz. rewrite andb_true_iff, Z.leb_le in Ix, Iy, Iz. rewrite !Z2Nat.id by lia. reflexivity.
+  Qed.
+
+  (* [apd_lands] from the three axes *)
+  Lemma apd_lands_axes (s : lat) (d : dep K) : wf s ->
+    (let '(mx, my, mz) := dm d in (0 <= mx /\ 0 <= my /\ 0 <= mz)%Z) ->
+    (forall dx dy dz, spacing_x_ s = Some dx -> spacing_y_ s = Some dy -> spacing_z_ s = Some dz ->
+       let '(cx, cy, cz) := dc d in let '(mx, my, mz) := dm d in
+       lands1 (axis_x s) dx cx mx /\ lands1 (axis_y s) dy cy my /\ lands1 (axis_z s) dz cz mz) ->
+    (let '(cx, cy, cz) := dc d in
+     (0 <= cx < Z.of_nat (npts (axis_x s)) /\ 0 <= cy < Z.of_nat (npts (axis_y s)) /\ 0 <= cz < Z.of_nat (npts (axis_z s)))%Z) ->
+    apd_lands s d.
+  Proof.
+    intros W Hm H Hc dx dy dz xc yc zc Ex Ey Ez Co. specialize (H dx dy dz Ex Ey Ez).
+    destruct (dc d) as [[cx cy] cz], (dm d) as [[mx my] mz]. destruct H as [H1 [H2 H3]], Hm as [M1 [M2 M3]], Hc as [C1 [C2 C3]].
+    rewrite (source_get_coordinates s cx cy cz W), (coord1_ok cx _ C1), (coord1_ok cy _ C2), (coord1_ok cz _ C3) in Co.
+    cbn [rbind] in Co. injection Co as <- <- <-. now apply lands_axes.
+  Qed.
+
+  (* ---- the whole method ------------------------------------------------------------------------------------------------ *)
+  Lemma place_sim_gen (d : dep K) vol n G mx my mz :
+    (forall ijk, inside (tshape (mx, my, mz)) ijk = true ->
+       cell G ijk = Some (tempn_with K k0 kmul kdiv norm_ok (knorm K k0 kadd d) vol d (sub3 ijk (mx, my, mz)))) ->
+    forall l, (forall ijk, In ijk l -> inside (tshape (mx, my, mz)) ijk = true) ->
+    forall g gm, (forall q, inside n q = true -> cell g q = Some (gm q)) ->
+    forall q, inside n q = true ->
+      cell (fold_left (place_step G (tgt_of mx my mz (dc d) n)) l g) q
+      = Some (fold_left (place_with K k0 kadd kmul kdiv norm_ok (knorm K k0 kadd d) n vol d) (map (fun ijk => sub3 ijk (mx, my, mz)) l) gm q).
+  Proof.
+    intros HG. induction l as [|ijk t IH]; intros Hl g gm Hg q Hq; [exact (Hg q Hq)|]. cbn [fold_left map].
+    apply IH; [intros a Ha; apply Hl; now right| |exact Hq].
+    intros q' Hq'. unfold place_step, place_with, tgt_of.
+    destruct (inside n (add3 (dc d) (sub3 ijk (mx, my, mz)))) eqn:E; [|exact (Hg q' Hq')].
+    cbn [arr_upd cell]. unfold zupd. rewrite idx_eqb_eq3. destruct (eq3 q' (add3 (dc d) (sub3 ijk (mx, my, mz)))); [|exact (Hg q' Hq')].
+    rewrite (Hg _ E), (HG ijk (Hl ijk (or_introl eq_refl))). reflexivity.
+  Qed.
+
+  (* the object and the model's state describe the same lattice *)
+  Record Abs (s : lat) (L : slat K) : Prop := {
+    abs_wf : wf s;
+    abs_x : sax L = axis_x s;
+    abs_y : say L = axis_y s;
+    abs_z : saz L = axis_z s;
+    abs_vol : cell_volume_ s = Some (svol L);
+    abs_grid : forall q, inside (dims s) q = true -> cell (grid_ s) q = Some (sgrid L q) }.
+  Definition res_rel (r : result lat) (m : result (slat K)) : Prop :=
+    match r, m with Ok s', Ok L' => Abs s' L' | Err e, Err e' => e = e' | _, _ => False end.
+  Definition with_sgrid (L : slat K) (g : zgrid K) : slat K :=
+    {| sax := sax L; say := say L; saz := saz L; svol := svol L; sgrid := g |}.
+
+  Lemma wf_set_grid (s : lat) g : wf s -> shape g = dims s -> wf (set_grid_ s g).
+  Proof. intros W Hg. destruct W. constructor; assumption. Qed.
+  Lemma place_step_shape G tgt (g : ndarr K) a : shape (place_step G tgt g a) = shape g.
+  Proof. unfold place_step. destruct (tgt a); reflexivity. Qed.
+
+  Lemma apd_fold (s : lat) (L : slat K) sigma quantity kernel : Abs s L ->
+    spacing_nonzero s -> mvn_ok sigma -> hw_order_ok s sigma ->
+    forall ps, (forall p d, In p ps -> prep_of s sigma quantity kernel p = Ok d -> apd_lands s d) ->
+    forall g gm, shape g = dims s -> (forall q, inside (dims s) q = true -> cell g q = Some (gm q)) ->
+    res_rel (foldM (loop1 quantity kernel sigma) ps (set_grid_ s g))
+            (rbind (mapM (prep K k1 (sax L) (say L) (saz L) (nsig3 s) sigma quantity (kern_of kernel)) (map (obs s sigma kernel) ps))
+                   (fun ds => Ok (with_sgrid L (deposit_all K k0 kadd kmul kdiv norm_ok (dims s) (svol L) gm ds)))).
+  Proof.
+    intros A Hnz Hmvn Hord. destruct A as [W Ax Ay Az Av Ag].
+    induction ps as [|p ps IH]; intros Hl g gm Hg Hc.
+    - cbn. constructor; try assumption. apply wf_set_grid; assumption.
+    - cbn [foldM map mapM]. rewrite Ax, Ay, Az.
+      pose proof (loop1_step (set_grid_ s g) sigma quantity kernel p (wf_set_grid s g W Hg) Hnz Hmvn Hord) as St.
+      change (prep_of (set_grid_ s g) sigma quantity kernel p) with (prep_of s sigma quantity kernel p) in St.
+      fold (prep_of s sigma quantity kernel p).
+      destruct (prep_of s sigma quantity kernel p) as [d|e] eqn:Ep; cbn [step_rel] in St.
+      + destruct (St (svol L) Av (Hl p d (or_introl eq_refl) Ep)) as [G [E HG]]. rewrite E. clear St E.
+        rewrite grid_set_grid, dims_set_grid, set_grid_twice. cbn [rbind].
+        destruct (dm d) as [[mx my] mz] eqn:Em.
+        specialize (IH (fun p' d' Hp' => Hl p' d' (or_intror Hp'))
+                       (fold_left (place_step G (tgt_of mx my mz (dc d) (dims s))) (np_ndindex (tshape (mx, my, mz))) g)
+                       (deposit_one K k0 kadd kmul kdiv norm_ok (dims s) (svol L) gm d)).
+        rewrite Ax, Ay, Az in IH.
+        destruct (mapM _ (map (obs s sigma kernel) ps)) as [ds|e'] eqn:Em'; cbn [rmap rbind] in IH |- *.
+        * apply IH.
+          -- rewrite fold_upd_shape; [exact Hg|]. intros; apply place_step_shape.
+          -- intros q Hq. unfold deposit_one. rewrite Em, (stencil_cells mx my mz).
+             apply (place_sim_gen d (svol L) (dims s) G mx my mz HG); try assumption.
+             intros ijk Hin. now apply in_ndindex.
+        * apply IH.
+          -- rewrite fold_upd_shape; [exact Hg|]. intros; apply place_step_shape.
+          -- intros q Hq. unfold deposit_one. rewrite Em, (stencil_cells mx my mz).
+             apply (place_sim_gen d (svol L) (dims s) G mx my mz HG); try assumption.
+             intros ijk Hin. now apply in_ndindex.
+      + rewrite St. reflexivity.
+  Qed.
+
+  Lemma abs_dims (s : lat) (L : slat K) : Abs s L -> sdims L = dims s.
+  Proof.
+    intros [W Ax Ay Az _ _]. unfold sdims, dims. rewrite Ax, Ay, Az, (wf_nx s W), (wf_ny s W), (wf_nz s W). reflexivity.
+  Qed.
+
+  (* add_particle_data(particle_data, sigma, quantity, kernel, add): the object afterwards and the model's state describe
+     the same lattice (same axes, cell volume, and node by node the same content); an exception has the same class *)
+  Theorem source_add_particle_data : forall (s : lat) (L : slat K) ps sigma quantity kernel add,
+    Abs s L -> spacing_nonzero s -> mvn_ok sigma -> hw_order_ok s sigma ->
+    (forall p d, In p ps -> prep_of s sigma quantity kernel p = Ok d -> apd_lands s d) ->
+    res_rel (g_apd s ps sigma quantity kernel add)
+            (add_particle_data K k0 k1 kadd kmul kdiv norm_ok L (nsig3 s) (map (obs s sigma kernel) ps) sigma quantity
+                               (kern_of kernel) add).
+  Proof.
+    intros s L ps sigma quantity kernel add A Hnz Hmvn Hord Hl.
+    unfold gen_add_particle_data, add_particle_data. rewrite (abs_dims s L A).
+    pose proof (apd_fold s L sigma quantity kernel A Hnz Hmvn Hord ps Hl) as F. destruct A as [W Ax Ay Az Av Ag].
+    destruct add; cbn [negb rbind].
+    - rewrite <- (set_grid_same s) at 1. apply F; [exact (wf_shape s W)|exact Ag].
+    - rewrite source_reset. cbn [rbind]. apply F.
+      + rewrite fold_upd_shape; [exact (wf_shape s W)|reflexivity].
+      + intros q Hq. rewrite reset_cell, (wf_shape s W), Hq. reflexivity.
+  Qed.
+
+  Theorem source_defaults :
+    gen_default_add_particle_data_kernel = "gaussian"%string /\ gen_default_add_particle_data_add = false
+    /\ gen_default___init___n_sigma_x = None /\ gen_default___init___n_sigma_y = None /\ gen_default___init___n_sigma_z = None.
+  Proof. repeat split. Qed.
 End Source.
+
+(* ---- the float-path hypothesis holds in exact arithmetic on a uniformly spaced axis ---------------------------------- *)
+(* node k of the axis is amin + k * dx with dx > 0, amax is the last node *)
+Definition uniform (a : axis) (dx : Q) : Prop :=
+  0 < dx /\ (forall k, (k < npts a)%nat -> nth k (avals a) 0 == amin a + inject_Z (Z.of_nat k) * dx)
+  /\ amax a == amin a + inject_Z (Z.of_nat (npts a) - 1) * dx.
+
+Lemma q_ltb_iff x y : q_ltb x y = true <-> x < y.
+Proof.
+  unfold q_ltb. rewrite negb_true_iff. split.
+  - intros H. apply Qnot_le_lt. intros L. apply Qle_bool_iff in L. congruence.
+  - intros H. apply not_true_is_false. intros L. apply Qle_bool_iff in L. exact (Qlt_not_le _ _ H L).
+Qed.
+Lemma q_ltb_false_iff x y : q_ltb x y = false <-> y <= x.
+Proof.
+  unfold q_ltb. rewrite negb_false_iff. apply Qle_bool_iff.
+Qed.
+Lemma nth_map_py_range (f : Z -> Q) n i : (0 <= i < n)%Z -> nth (Z.to_nat i) (map f (py_range n)) 0 = f i.
+Proof.
+  intros H. unfold py_range. rewrite map_map.
+  rewrite (nth_indep _ 0 (f (Z.of_nat 0))) by (rewrite map_length, seq_length; lia).
+  rewrite (map_nth (fun x => f (Z.of_nat x)) (seq 0 (Z.to_nat n)) 0%nat (Z.to_nat i)), seq_nth by lia. f_equal. lia.
+Qed.
+Lemma inject_Z_le a b : (a <= b)%Z -> inject_Z a <= inject_Z b.
+Proof. intros H. unfold Qle, inject_Z. cbn. lia. Qed.
+Lemma inject_Z_sub a b : inject_Z (a - b) == inject_Z a - inject_Z b.
+Proof. unfold Z.sub. rewrite inject_Z_plus, inject_Z_opp. reflexivity. Qed.
+
+(* the nodes of the temporary lattice are (i - m) * dx *)
+Lemma tvals_exact dx m i : (0 <= m)%Z -> (0 <= i < 2 * m + 1)%Z -> tcoord (tvals dx m) i == inject_Z (i - m) * dx.
+Proof.
+  intros Hm Hi. unfold tcoord, tvals, lin. destruct (Z.eq_dec m 0) as [->|Hn].
+  - assert (i = 0%Z) by lia. subst i. cbn. ring.
+  - assert (E1 : (2 * m + 1 =? 1)%Z = false) by (apply Z.eqb_neq; lia). rewrite E1.
+    rewrite nth_map_py_range by exact Hi.
+    assert (Hq : ~ inject_Z m == 0) by (unfold Qeq, inject_Z; cbn; lia).
+    destruct (i =? 2 * m + 1 - 1)%Z eqn:E.
+    + apply Z.eqb_eq in E. replace (i - m)%Z with m by lia. reflexivity.
+    + replace (2 * m + 1 - 1)%Z with (2 * m)%Z by lia. rewrite inject_Z_mult, inject_Z_sub. field. exact Hq.
+Qed.
+
+(* argmin of a list with a strict minimum *)
+Lemma argmin_from_none ds : forall b bd i, (forall d, In d ds -> bd <= d) -> argmin_from b bd i ds = b.
+Proof.
+  induction ds as [|d t IH]; intros b bd i H; [reflexivity|]. cbn [argmin_from]. unfold Qlt_bool.
+  assert (E : Qle_bool bd d = true) by (apply Qle_bool_iff; apply H; now left). rewrite E. cbn [negb].
+  apply IH. intros d' Hd'. apply H. now right.
+Qed.
+Lemma argmin_from_strict ds : forall j b bd i, (j < List.length ds)%nat -> nth j ds 0 < bd ->
+  (forall k, (k < List.length ds)%nat -> k <> j -> nth j ds 0 < nth k ds 0) -> argmin_from b bd i ds = (i + j)%nat.
+Proof.
+  induction ds as [|d t IH]; intros j b bd i Hj Hlt Hmin; [cbn in Hj; lia|]. cbn [argmin_from]. unfold Qlt_bool.
+  destruct j as [|j'].
+  - cbn [nth] in Hlt, Hmin.
+    assert (E : Qle_bool bd d = false) by (apply not_true_is_false; intros L; apply Qle_bool_iff in L; exact (Qlt_not_le _ _ Hlt L)).
+    rewrite E. cbn [negb]. rewrite argmin_from_none; [lia|]. intros d' Hd'. apply In_nth with (d := 0) in Hd'.
+    destruct Hd' as [k [Hk <-]]. apply Qlt_le_weak. apply (Hmin (S k)); cbn [List.length]; lia.
+  - cbn [nth List.length] in *. destruct (Qle_bool bd d) eqn:E; cbn [negb].
+    + rewrite (IH j' b bd (S i)); [lia|lia|exact Hlt|]. intros k Hk Hkj. apply (Hmin (S k)); lia.
+    + rewrite (IH j' i d (S i)); [lia|lia| |]. 
+      * apply (Hmin 0%nat); lia.
+      * intros k Hk Hkj. apply (Hmin (S k)); lia.
+Qed.
+Lemma argmin_strict ds j : (j < List.length ds)%nat ->
+  (forall k, (k < List.length ds)%nat -> k <> j -> nth j ds 0 < nth k ds 0) -> argmin ds = Ok j.
+Proof.
+  intros Hj Hmin. destruct ds as [|d t]; [cbn in Hj; lia|]. unfold argmin. f_equal. destruct j as [|j'].
+  - apply argmin_from_none. intros d' Hd'. apply In_nth with (d := 0) in Hd'. destruct Hd' as [k [Hk <-]].
+    apply Qlt_le_weak. apply (Hmin (S k)); cbn [List.length]; lia.
+  - cbn [List.length] in Hj. rewrite (argmin_from_strict t j' 0 d 1); [reflexivity|lia| |].
+    + apply (Hmin 0%nat); cbn [List.length]; lia.
+    + intros k Hk Hkj. apply (Hmin (S k)); cbn [List.length]; lia.
+Qed.
+
+Lemma Qabs_pos_neq x : ~ x == 0 -> 0 < Qabs x.
+Proof.
+  intros H. destruct (Qlt_le_dec 0 x) as [L|L].
+  - rewrite Qabs_pos by (apply Qlt_le_weak; exact L). exact L.
+  - rewrite Qabs_neg by exact L. destruct (Qlt_le_dec x 0) as [L'|L']; [lra|]. exfalso. apply H. lra.
+Qed.
+
+Theorem lands1_uniform : forall (a : axis) dx c m,
+  uniform a dx -> (0 <= c < Z.of_nat (npts a))%Z -> (0 <= m)%Z -> lands1 a dx c m.
+Proof.
+  intros a dx c m [Hdx [Hn Hmax]] Hc Hm i Hi. cbv zeta.
+  set (n := npts a) in *. set (t := (c + (i - m))%Z).
+  set (pos := tcoord (tvals dx m) i + tcoord (avals a) c).
+  assert (Epos : pos == amin a + inject_Z t * dx).
+  { unfold pos, tcoord at 2. rewrite tvals_exact by assumption. rewrite (Hn (Z.to_nat c)) by lia. rewrite Z2Nat.id by lia.
+    unfold t. rewrite inject_Z_plus. ring. }
+  assert (Etol : tol_c * Qabs dx == tol_c * dx) by (rewrite Qabs_pos by (apply Qlt_le_weak; exact Hdx); reflexivity).
+  assert (Tc : 0 < tol_c /\ tol_c < 1) by (unfold tol_c, Qlt; cbn; lia).
+  unfold out1.
+  destruct (Z_lt_le_dec t 0) as [Lt|Ge].
+  { (* left of the lattice *)
+    assert (E : q_ltb pos (amin a - tol_c * Qabs dx) = true).
+    { apply q_ltb_iff. rewrite Epos, Etol. pose proof (inject_Z_le t (-1) ltac:(lia)) as HT. change (inject_Z (-1)) with (-(1)) in HT. nra. }
+    rewrite E. cbn [orb]. unfold in1. apply andb_false_iff. left. apply Z.leb_gt. exact Lt. }
+  assert (E1 : q_ltb pos (amin a - tol_c * Qabs dx) = false).
+  { apply q_ltb_false_iff. rewrite Epos, Etol. pose proof (inject_Z_le 0 t Ge) as HT. change (inject_Z 0) with 0 in HT. nra. }
+  rewrite E1. cbn [orb].
+  destruct (Z_lt_le_dec t (Z.of_nat n)) as [Ltn|Gen].
+  2:{ (* right of the lattice *)
+    assert (E : q_ltb (amax a + tol_c * Qabs dx) pos = true).
+    { apply q_ltb_iff. rewrite Epos, Etol, Hmax. pose proof (inject_Z_le (Z.of_nat n) t Gen) as HT.
+      rewrite inject_Z_sub. change (inject_Z 1) with 1. nra. }
+    rewrite E. unfold in1. apply andb_false_iff. right. apply Z.ltb_ge. exact Gen. }
+  assert (E2 : q_ltb (amax a + tol_c * Qabs dx) pos = false).
+  { apply q_ltb_false_iff. rewrite Epos, Etol, Hmax. pose proof (inject_Z_le t (Z.of_nat n - 1) ltac:(lia)) as HT. nra. }
+  rewrite E2. split; [unfold in1; apply andb_true_iff; split; [apply Z.leb_le|apply Z.ltb_lt]; assumption|].
+  (* inside: clamping changes nothing, the nearest node is t *)
+  assert (Plo : amin a <= pos) by (rewrite Epos; pose proof (inject_Z_le 0 t Ge) as HT; change (inject_Z 0) with 0 in HT; nra).
+  assert (Phi : pos <= amax a) by (rewrite Epos, Hmax; pose proof (inject_Z_le t (Z.of_nat n - 1) ltac:(lia)) as HT; nra).
+  assert (Ecl : clamp pos (amin a) (amax a) = pos).
+  { unfold clamp, py_max, py_min. rewrite (proj2 (q_ltb_false_iff pos (amin a)) Plo), (proj2 (q_ltb_false_iff (amax a) pos) Phi). reflexivity. }
+  rewrite Ecl. unfold get_index_nn, in_axis_range.
+  destruct (avals a) as [|v0 rest] eqn:Ea; [unfold n, npts in Hc; rewrite Ea in Hc; cbn in Hc; lia|].
+  assert (Ln : List.length (v0 :: rest) = n) by (unfold n, npts; rewrite Ea; reflexivity).
+  assert (Hn' : forall k, (k < n)%nat -> nth k (v0 :: rest) 0 == amin a + inject_Z (Z.of_nat k) * dx) by (intros k Hk; exact (Hn k Hk)).
+  assert (V0 : Qle_bool v0 pos = true).
+  { apply Qle_bool_iff. pose proof (Hn' 0%nat ltac:(lia)) as H0. cbn [nth] in H0. rewrite H0. change (inject_Z (Z.of_nat 0)) with 0. lra. }
+  assert (VL : Qle_bool pos (last (v0 :: rest) v0) = true).
+  { apply Qle_bool_iff. pose proof (nth_error_last (v0 :: rest) v0 ltac:(discriminate)) as HL.
+    apply (nth_error_nth _ _ 0) in HL. rewrite <- HL, Ln. rewrite (Hn' (n - 1)%nat) by lia.
+    replace (Z.of_nat (n - 1)) with (Z.of_nat n - 1)%Z by lia. rewrite <- Hmax. exact Phi. }
+  cbn [rbind q_le_fv fv_le_q]. rewrite V0, VL. cbn [andb negb]. unfold find_closest_index.
+  apply argmin_strict.
+  - unfold dists. rewrite map_length, Ln. lia.
+  - unfold dists. rewrite map_length, Ln. intros k Hk Hkt.
+    assert (Nk : forall k', (k' < n)%nat -> nth k' (map (fun v => Qabs (v - pos)) (v0 :: rest)) 0 = Qabs (nth k' (v0 :: rest) 0 - pos)).
+    { intros k' Hk'. rewrite (nth_indep _ 0 ((fun v => Qabs (v - pos)) 0)) by (rewrite map_length, Ln; exact Hk'). exact (map_nth (fun v => Qabs (v - pos)) (v0 :: rest) 0 k'). }
+    rewrite !Nk by lia.
+    assert (Zt : nth (Z.to_nat t) (v0 :: rest) 0 - pos == 0).
+    { rewrite (Hn' (Z.to_nat t)) by lia. rewrite Z2Nat.id by lia. rewrite Epos. ring. }
+    rewrite (Qabs_wd _ _ Zt). apply Qabs_pos_neq.
+    rewrite (Hn' k Hk), Epos. intros H.
+    assert (H' : (inject_Z (Z.of_nat k) - inject_Z t) * dx == 0) by (rewrite <- H; ring).
+    apply Qmult_integral in H'. destruct H' as [H'|H']; [|lra].
+    rewrite <- inject_Z_sub in H'. unfold Qeq, inject_Z in H'. cbn in H'. lia.
+Qed.
+
+Lemma uniform_wd a dx dx' : dx' == dx -> uniform a dx -> uniform a dx'.
+Proof.
+  intros E [H1 [H2 H3]]. split; [rewrite E; exact H1|]. split; [intros k Hk; rewrite E; exact (H2 k Hk)|rewrite E; exact H3].
+Qed.
+
+Section Uniform.
+  Variable K : Type.
+  Variables (k0 k1 : K) (kadd kmul ksub kdiv : K -> K -> K) (kopp kinv : K -> K).
+  Variable kgtb : K -> K -> bool.
+  Variable kofq : Q -> K.
+  Variable P : Type.
+  Variable pfv : string -> P -> fv.
+  Variable pfk : string -> P -> option K.
+  Variable KERN : Type.
+  Variable o_mvn : list fv -> smat -> result KERN.
+  Variable o_pdf : KERN -> list fv -> option K.
+  Variable o_sqrt : fv -> fv.
+  Hypothesis Fth : field_theory k0 k1 kadd kmul ksub kopp kdiv kinv (@eq K).
+
+  (* what a successful [prep] says about the half widths and the closest node *)
+  Lemma prep_ok_facts (s : lat K) sigma quantity kernel p d :
+    prep_of K k1 P pfv pfk KERN o_mvn o_pdf o_sqrt s sigma quantity kernel p = Ok d ->
+    (let '(mx, my, mz) := dm d in (0 <= mx /\ 0 <= my /\ 0 <= mz)%Z)
+    /\ (let '(cx, cy, cz) := dc d in
+        (0 <= cx < Z.of_nat (npts (axis_x K s)) /\ 0 <= cy < Z.of_nat (npts (axis_y K s)) /\ 0 <= cz < Z.of_nat (npts (axis_z K s)))%Z).
+  Proof.
+    unfold prep_of, prep, nsig3. cbn [ppos obs]. cbv beta iota.
+    destruct (is_nan _ || is_nan _ || is_nan _); [discriminate|].
+    destruct (quantity_of K k1 quantity _) as [v|]; [|discriminate]. cbn [rbind].
+    assert (R : forall mfin : bool,
+      (if mfin then Err ValueError else
+       rbind (half_width (n_sigma_x_ s) sigma (axis_x K s)) (fun mx => rbind (half_width (n_sigma_y_ s) sigma (axis_y K s)) (fun my =>
+       rbind (half_width (n_sigma_z_ s) sigma (axis_z K s)) (fun mz =>
+       rbind (closest1 (pfv "x" p) (axis_x K s)) (fun cx => rbind (closest1 (pfv "y" p) (axis_y K s)) (fun cy =>
+       rbind (closest1 (pfv "z" p) (axis_z K s)) (fun cz =>
+       Ok {| dc := (cx, cy, cz); dv := v; dm := (mx, my, mz); dk := pkern (obs K P pfv pfk KERN o_mvn o_pdf o_sqrt s sigma kernel p) |})))))))
+      = Ok d ->
+      (let '(mx, my, mz) := dm d in (0 <= mx /\ 0 <= my /\ 0 <= mz)%Z)
+      /\ (let '(cx, cy, cz) := dc d in
+          (0 <= cx < Z.of_nat (npts (axis_x K s)) /\ 0 <= cy < Z.of_nat (npts (axis_y K s)) /\ 0 <= cz < Z.of_nat (npts (axis_z K s)))%Z)).
+    { intros [|]; [discriminate|]. unfold half_width.
+      destruct (spacing (axis_x K s)) as [dx|]; [|cbn [rbind]; discriminate].
+      destruct (round_half_even (n_sigma_x_ s * sigma / dx) <? 0)%Z eqn:Mx; [cbn [rbind]; discriminate|]. cbn [rbind].
+      destruct (spacing (axis_y K s)) as [dy|]; [|cbn [rbind]; discriminate].
+      destruct (round_half_even (n_sigma_y_ s * sigma / dy) <? 0)%Z eqn:My; [cbn [rbind]; discriminate|]. cbn [rbind].
+      destruct (spacing (axis_z K s)) as [dz|]; [|cbn [rbind]; discriminate].
+      destruct (round_half_even (n_sigma_z_ s * sigma / dz) <? 0)%Z eqn:Mz; [cbn [rbind]; discriminate|]. cbn [rbind].
+      destruct (closest1 (pfv "x" p) (axis_x K s)) as [cx|] eqn:Cx; [|discriminate].
+      destruct (closest1 (pfv "y" p) (axis_y K s)) as [cy|] eqn:Cy; [|discriminate].
+      destruct (closest1 (pfv "z" p) (axis_z K s)) as [cz|] eqn:Cz; [|discriminate]. cbn [rbind].
+      intros E. injection E as <-. cbn [dm dc]. apply Z.ltb_ge in Mx, My, Mz.
+      pose proof (closest1_bound _ _ _ Cx). pose proof (closest1_bound _ _ _ Cy). pose proof (closest1_bound _ _ _ Cz). repeat split; lia. }
+    destruct (kern_of kernel); [exact (R false)|exact (R _)|discriminate].
+  Qed.
+
+  (* every axis uniformly spaced (its recorded spacing is, as a rational, the node distance) *)
+  Definition uniform_lat (s : lat K) : Prop :=
+    (exists dx, spacing_x_ s = Some dx /\ uniform (axis_x K s) dx) /\ (exists dy, spacing_y_ s = Some dy /\ uniform (axis_y K s) dy)
+    /\ (exists dz, spacing_z_ s = Some dz /\ uniform (axis_z K s) dz).
+
+  (* on a uniformly spaced lattice, in exact arithmetic, nothing about the float path has to be assumed *)
+  Theorem source_add_particle_data_uniform : forall (s : lat K) (L : slat K) ps sigma quantity kernel add,
+    Abs K s L -> uniform_lat s -> mvn_ok KERN o_mvn sigma ->
+    res_rel K (gen_add_particle_data K k0 k1 kadd kmul kdiv kgtb kofq P pfv pfk KERN o_mvn o_pdf o_sqrt s ps sigma quantity kernel add)
+            (add_particle_data K k0 k1 kadd kmul kdiv (fun N => kgtb N k0) L (nsig3 K s)
+               (map (obs K P pfv pfk KERN o_mvn o_pdf o_sqrt s sigma kernel) ps) sigma quantity (kern_of kernel) add).
+  Proof.
+    intros s L ps sigma quantity kernel add A [[dx [Ex Ux]] [[dy [Ey Uy]] [dz [Ez Uz]]]] Hmvn.
+    apply (source_add_particle_data K k0 k1 kadd kmul ksub kdiv kopp kinv kgtb kofq P pfv pfk KERN o_mvn o_pdf o_sqrt Fth); try assumption.
+    - intros d [H|[H|H]] E.
+      + rewrite Ex in H. injection H as <-. destruct Ux as [U _]. rewrite E in U. lra.
+      + rewrite Ey in H. injection H as <-. destruct Uy as [U _]. rewrite E in U. lra.
+      + rewrite Ez in H. injection H as <-. destruct Uz as [U _]. rewrite E in U. lra.
+    - unfold hw_order_ok. rewrite Ex, Ey, Ez. exact I.
+    - intros p d _ Ep. destruct (prep_ok_facts s sigma quantity kernel p d Ep) as [Hm Hc].
+      apply apd_lands_axes; [exact (abs_wf K s L A)|exact Hm| |exact Hc].
+      intros dx' dy' dz' Ex' Ey' Ez'. rewrite Ex in Ex'. rewrite Ey in Ey'. rewrite Ez in Ez'.
+      injection Ex' as <-. injection Ey' as <-. injection Ez' as <-.
+      destruct (dc d) as [[cx cy] cz], (dm d) as [[mx my] mz]. destruct Hm as [M1 [M2 M3]], Hc as [C1 [C2 C3]].
+      repeat split; apply lands1_uniform; assumption.
+  Qed.
+End Uniform.
+
+(* ---- end to end: the C16 conservation theorem transported to the regenerated method ---------------------------------------- *)
+Section EndToEnd.
+  Variable K : Type.
+  Variables (k0 k1 : K) (kadd kmul ksub kdiv : K -> K -> K) (kopp kinv : K -> K).
+  Variable kgtb : K -> K -> bool.
+  Variable kofq : Q -> K.
+  Variable P : Type.
+  Variable pfv : string -> P -> fv.
+  Variable pfk : string -> P -> option K.
+  Variable KERN : Type.
+  Variable o_mvn : list fv -> smat -> result KERN.
+  Variable o_pdf : KERN -> list fv -> option K.
+  Variable o_sqrt : fv -> fv.
+  Hypothesis Fth : field_theory k0 k1 kadd kmul ksub kopp kdiv kinv (@eq K).
+  Hypothesis gt_nz : forall N, kgtb N k0 = true -> N <> k0.
+
+  (* the content of a node (0 for NaN) *)
+  Definition content (s : lat K) (q : Z * Z * Z) : K := match cell (grid_ s) q with Some v => v | None => k0 end.
+
+  (* an object that is consistent, has a finite cell volume and no NaN in its grid: whenever the regenerated
+     add_particle_data returns, cell_volume * (sum of the grid) has grown by the particles' quantities - under the
+     hypotheses of C16_conserve on the validated particles ds (finite kernel values, kernel sum passes the guard, stencil
+     inside the lattice) and the domain / float-path hypotheses of the source tie *)
+  Theorem source_conserves : forall (s s' : lat K) vol ps sigma quantity kernel add ds,
+    wf K s -> cell_volume_ s = Some vol -> vol <> k0 ->
+    (forall q, inside (dims K s) q = true -> cell (grid_ s) q <> None) ->
+    spacing_nonzero K s -> mvn_ok KERN o_mvn sigma -> hw_order_ok K s sigma ->
+    (forall p d, In p ps -> prep_of K k1 P pfv pfk KERN o_mvn o_pdf o_sqrt s sigma quantity kernel p = Ok d -> apd_lands K k0 kofq s d) ->
+    gen_add_particle_data K k0 k1 kadd kmul kdiv kgtb kofq P pfv pfk KERN o_mvn o_pdf o_sqrt s ps sigma quantity kernel add = Ok s' ->
+    mapM (prep K k1 (axis_x K s) (axis_y K s) (axis_z K s) (nsig3 K s) sigma quantity (kern_of kernel))
+         (map (obs K P pfv pfk KERN o_mvn o_pdf o_sqrt s sigma kernel) ps) = Ok ds ->
+    Forall (good K k0 kadd (fun N => kgtb N k0) (dims K s)) ds ->
+    kmul vol (gsum K k0 kadd (dims K s) (content s'))
+    = kadd (kmul vol (gsum K k0 kadd (dims K s) (if add then content s else fun _ => k0))) (ksum k0 kadd (map dv ds)).
+  Proof.
+    intros s s' vol ps sigma quantity kernel add ds W Hvol Hv Hfin Hnz Hmvn Hord Hl Hrun Hds Hgood.
+    set (L := {| sax := axis_x K s; say := axis_y K s; saz := axis_z K s; svol := vol; sgrid := content s |}).
+    assert (A : Abs K s L).
+    { constructor; try reflexivity; try assumption. intros q Hq. unfold L, content. cbn [sgrid].
+      destruct (cell (grid_ s) q) eqn:E; [reflexivity|]. exfalso. exact (Hfin q Hq E). }
+    pose proof (source_add_particle_data K k0 k1 kadd kmul ksub kdiv kopp kinv kgtb kofq P pfv pfk KERN o_mvn o_pdf o_sqrt Fth
+                  s L ps sigma quantity kernel add A Hnz Hmvn Hord Hl) as R.
+    rewrite Hrun in R. unfold res_rel in R.
+    destruct (add_particle_data K k0 k1 kadd kmul kdiv (fun N => kgtb N k0) L (nsig3 K s)
+                (map (obs K P pfv pfk KERN o_mvn o_pdf o_sqrt s sigma kernel) ps) sigma quantity (kern_of kernel) add) as [L'|e] eqn:EM;
+      [|contradiction].
+    pose proof (abs_dims K s L A) as D. pose proof (abs_dims K s' L' R) as D'.
+    destruct (apd_spec K k0 k1 kadd kmul kdiv _ L _ _ _ _ _ _ L' EM) as (ds0 & _ & _ & Sx & Sy & Sz & _).
+    assert (DD : dims K s' = dims K s).
+    { rewrite <- D', <- D. unfold sdims. rewrite Sx, Sy, Sz. reflexivity. }
+    pose proof (apd_conserves K k0 k1 kadd kmul ksub kdiv kopp kinv Fth (fun N => kgtb N k0) gt_nz L (nsig3 K s) _ sigma quantity
+                  (kern_of kernel) add L' ds EM Hds Hv) as C. rewrite D in C. specialize (C Hgood). cbn [svol sgrid L] in C.
+    rewrite <- C. f_equal. unfold gsum. f_equal. apply map_ext_in. intros q Hq.
+    change (cells (dims K s)) with (np_ndindex (dims K s)) in Hq. apply in_ndindex in Hq.
+    unfold content. rewrite <- DD in Hq. rewrite (abs_grid K s' L' R q Hq). reflexivity.
+  Qed.
+End EndToEnd.
+
+(* ---- a computed instance (non-vacuity; K := Q): 5 x 3 x 3 nodes on [0,4] x [0,2] x [0,2], sigma = 1/3 (half widths 1),
+   a particle of energy 3 at node (2,1,1) and one of energy 5 next to the corner (0,0,0) whose stencil is clipped; the
+   "kernel" is 1 / (1 + |x - mean|^2).  The regenerated method and the hand model give, node by node, the same grid. *)
+Definition ex_pfv (a : string) (p : nat) : fv :=
+  match p with
+  | O => if String.eqb a "x" then Fin 2 else Fin 1
+  | _ => if String.eqb a "x" then Fin (1 # 4) else if String.eqb a "y" then Fin (1 # 8) else Fin 0
+  end.
+Definition ex_pfk (a : string) (p : nat) : option Q := match p with O => Some 3 | _ => Some 5 end.
+Definition ex_mvn (mean : list fv) (cov : smat) : result (list fv) := Ok mean.
+Fixpoint ex_dist2 (a b : list fv) : Q :=
+  match a, b with Fin x :: a', Fin y :: b' => Qred ((x - y) * (x - y) + ex_dist2 a' b') | _, _ => 0 end.
+Definition ex_pdf (mean args : list fv) : option Q := Some (Qred (1 / (1 + ex_dist2 args mean))).
+Definition ex_gtb (a b : Q) : bool := negb (Qle_bool a b).
+Definition ex_add (a b : Q) := Qred (a + b).
+Definition ex_mul (a b : Q) := Qred (a * b).
+Definition ex_div (a b : Q) := Qred (a / b).
+Definition ex_check : bool :=
+  match gen___init__ Q 0 (fun q => q) 0 4 0 2 0 2 5 3 3 None None None with
+  | Err _ => false
+  | Ok s =>
+    let L := {| sax := axis_x Q s; say := axis_y Q s; saz := axis_z Q s; svol := 16 # 45; sgrid := fun _ => 7 |} in
+    match gen_add_particle_data Q 0 1 ex_add ex_mul ex_div ex_gtb (fun q => q) nat ex_pfv ex_pfk (list fv) ex_mvn ex_pdf (fun v => v)
+                                s [0%nat; 1%nat] (1 # 3) "energy_density" "gaussian" false,
+          add_particle_data Q 0 1 ex_add ex_mul ex_div (fun N => ex_gtb N 0) L (nsig3 Q s)
+                            (map (obs Q nat ex_pfv ex_pfk (list fv) ex_mvn ex_pdf (fun v => v) s (1 # 3) "gaussian") [0%nat; 1%nat])
+                            (1 # 3) "energy_density" (kern_of "gaussian") false with
+    | Ok s', Ok L' =>
+      forallb (fun q => match cell (grid_ s') q with Some a => Qeq_bool a (sgrid L' q) | None => false end) (cells (5, 3, 3)%Z)
+      && negb (Qeq_bool (sgrid L' (2, 1, 1)%Z) 0) && negb (Qeq_bool (sgrid L' (0, 0, 0)%Z) 0) && Qeq_bool (sgrid L' (4, 2, 2)%Z) 0
+    | _, _ => false
+    end
+  end.
+Theorem source_example : ex_check = true.
+Proof. vm_compute. reflexivity. Qed.
